@@ -44,6 +44,13 @@ CHECKS = {
         "transmission/delivery, exactly-once delivery under SIMPLE, and decreasing RHL.",
         "Sampled histories (<= 60 frames) and topologies (<= 5 stations); PDR limiting disabled via MIB; exactly-once delivery not demanded under CBF (suppression is inherent).",
     ),
+    "C07": (
+        "hypothesis-generated placements against an independent geometry oracle (two projections, tolerance band) on the real receive and request paths",
+        "Receivers and sources are placed by construction inside, outside and around the border of drawn circles/rectangles/ellipses with "
+        "drawn azimuth anywhere on the globe; delivery, the Annex D forwarding decision and the area-size limit are compared with an "
+        "independent EN 302 931 implementation, verdicts being issued only where two different projections agree outside a 3 % + 2 m band.",
+        "Sampled; no verdict in the border band, beyond 85 degrees latitude or across the antimeridian; Annex D 'sender' = source.",
+    ),
 }
 
 NOT_APPLICABLE = {
